@@ -284,7 +284,7 @@ theorem msatTail_block (loc : Loc) (n offset : Nat) :
   have h1 : msatFirst + offset * msatPer - (msatHdr + msatPer * offset) = msatPer := by cfb_consts; omega
   have h2 : max (msatHdr + msatPer * offset) (msatFirst + offset * msatPer) = msatHdr + msatPer * (offset + 1) := by
     cfb_consts; omega
-  simp only [h1, h2, Int.ofNat_eq_coe]
+  simp only [h1, h2, Int.ofNat_eq_natCast]
 
 /-- the DIFAT sectors are whole sectors: the FAT begins on a sector boundary -/
 theorem msatTail_length (loc : Loc) : ∀ n offset,
